@@ -198,8 +198,9 @@ class FaultCheck:
         s.chunk = params.get('chunk', 1)
         s.tail_len = params.get('tail', 3)
         s.twin = params.get('twin', False)
+        s.double = params.get('double', False)     # a second faulty message right after the first one
 
-    def faulty_unit(s, kind, rel):
+    def faulty_unit(s, kind, rel, sfx=''):
         """(bytes, handler call made by the faulty unit itself or None, script, expected error or None=any).
         rel: the unit follows ':A:C' and is written relative to A where the tree allows it"""
         ex = s.ex
@@ -207,23 +208,23 @@ class FaultCheck:
         k = s.KINDS[kind]
         A = b'' if rel else b':A:'
         if k == 'invalid-byte':
-            b = z3.BitVec('fb', 8)
+            b = z3.BitVec('fb' + sfx, 8)
             alnum = Or(in_range(b, 48, 57), in_range(b, 65, 90), in_range(b, 97, 122))
             ws = Or(in_range(b, 0, 9), in_range(b, 11, 32))
             ex.solver.add(z3.Not(alnum), z3.Not(ws), b != 95, b != 58, b != 59, b != 63, b != 10)
             return list(b'C' if rel else b':C') + [b], None, None, None
         if k == 'undefined-mnemonic':
-            b = z3.BitVec('fl', 8)
+            b = z3.BitVec('fl' + sfx, 8)
             ex.solver.add(Or(in_range(b, 65, 90), in_range(b, 97, 122)))
             for c in b'bckqsx':
                 ex.solver.add(lower(b) != c)
             return list(A) + [b], None, None, None
         if k == 'query-mismatch':
-            v = ex.decide([(0, True), (1, True)])
-            return list(A + [b'B?', b'Q'][v]), None, None, None
+            v = ex.decide([(0, True), (1, True), (2, True), (3, True)])
+            return list([A + b'B?', A + b'Q', b'*R?', b'*Q'][v]), None, None, None
         if k == 'extra-parameter':
-            v = ex.decide([(0, True), (1, True)])
-            return list([A + b'B 1', b':U? 1,2'][v]), None, None, None
+            v = ex.decide([(0, True), (1, True), (2, True)])
+            return list([A + b'B 1', b':U? 1,2', b'*R 1'][v]), None, None, None
         if k == 'missing-parameter':
             v = ex.decide([(0, True), (1, True)])
             return list([A + b'K', b':U?'][v]), None, None, None
@@ -231,14 +232,14 @@ class FaultCheck:
             v = ex.decide([(0, True), (1, True), (2, True)])
             return list([b':U? "x"', A + b'S 5', A + b'K 5'][v]), None, None, None
         if k == 'out-of-range':
-            d = [z3.BitVec(f'fd{i}', 8) for i in range(3)]
+            d = [z3.BitVec(f'fd{sfx}{i}', 8) for i in range(3)]
             for x in d:
                 ex.solver.add(in_range(x, 48, 57))
             val = sum((z3.ZeroExt(8, x) - 48) * m for x, m in zip(d, (100, 10, 1)))
             ex.solver.add(z3.UGT(val, 255))
             return list(b':U? ') + d, None, None, None
         if k == 'handler-error':
-            n = z3.BitVec('fn', 16)
+            n = z3.BitVec('fn' + sfx, 16)
             return list(A + b'B'), 0, ('custom', n, list(b'bad')), ('Custom', n, b'bad')
         raise Unsupported(k)
 
@@ -271,6 +272,14 @@ class FaultCheck:
         for u, _ in after:
             msg += [ord(';')] + u
         msg.append(10)
+        # optionally a second faulty message (one unit, written from the root) right behind the first
+        second = None
+        if s.double:
+            k2 = [k for k in s.kinds if s.KINDS[k] != 'handler-error']      # (its script index would depend on all-or-none of the first message)
+            kind2 = k2[ex.decide([(i, True) for i in range(len(k2))])]
+            f2, fcall2, fscript2, ferr2 = s.faulty_unit(kind2, False, sfx='2')
+            msg = msg + f2 + [10]
+            second = (fcall2, fscript2, ferr2)
         # the following message starts with a relative header: it must be resolved from the root whatever happened before
         stream = (list(b':X\n') if pre else []) + msg + list(b'C;A:Q?\n')
         s.stream = stream
@@ -290,6 +299,8 @@ class FaultCheck:
             head.append(('call', fcall))
         head.append(('err', ferr))
         tail = [('call', 2), ('call', 4)]
+        if second is not None:
+            tail = ([('call', second[0])] if second[0] is not None else []) + [('err', second[2])] + tail
         adm = [head + tail, head + [('call', c) for _, c in after] + tail]
         if s.twin:
             adm = [head + [('err', None)] + tail]     # wrong oracle: demands two error reports
